@@ -135,6 +135,11 @@ func (r *registry) mkErr(flavor, tok string) error {
 	case "wrapcustom":
 		e := wrapErr{Tok: tok, Inner: &simErr{Tok: tok + "-inner"}}
 		re = regErr{base: e, returned: e}
+	case "ctxerr":
+		// an ordinary callback failure whose error value happens to wrap a context
+		// error (a per-attempt timeout of the callback's own): the run's context is live
+		e := wrapErr{Tok: tok, Inner: context.DeadlineExceeded}
+		re = regErr{base: e, returned: e}
 	default:
 		panic("bad error flavour " + flavor)
 	}
@@ -361,6 +366,13 @@ func (h *harness) perform(n *NodeSpec, o Outcome, barrierNeed int) {
 	case "last":
 		simrt.YieldLast("gate:last")
 	}
+	if o.Conn != nil {
+		var to flyt.Node
+		if o.Conn.To >= 0 {
+			to = h.nodes[o.Conn.To]
+		}
+		h.nodes[o.Conn.Flow].(*flyt.Flow).Connect(h.nodes[o.Conn.From], flyt.Action(o.Conn.Action), to)
+	}
 	if o.Cancel {
 		simrt.Emit(simrt.Event{Kind: "cancel", N: n.ID, V: h.st[n.ID].cur})
 		h.cancel()
@@ -416,7 +428,7 @@ func itemPay(n *NodeSpec, it *Item) string {
 			return "int" // a single value that is itself a slice would legitimately be taken as the item list
 		}
 	}
-	if it.Pay == "nil" {
+	if it.Pay == "nil" || it.Pay == "erritem" || strings.HasPrefix(it.Pay, "nil") {
 		return "int" // items must stay attributable
 	}
 	return it.Pay
@@ -428,6 +440,11 @@ func (h *harness) batchItems(n *NodeSpec, v int, vs *Visit) (any, string) {
 	vals := make([]any, len(vs.Items))
 	for i := range vs.Items {
 		tok := itemTok(n.ID, v, i)
+		if vs.Items[i].Pay == "erritem" && (n.PrepShape == "" || n.PrepShape == "results") {
+			vals[i] = flyt.NewErrorResult(h.reg.mkErr("sentinel", tok+"E"))
+			descs = append(descs, "ER("+tok+"E)")
+			continue
+		}
 		vals[i] = h.reg.mkPay(itemPay(n, &vs.Items[i]), tok)
 		descs = append(descs, tok)
 	}
@@ -436,7 +453,11 @@ func (h *harness) batchItems(n *NodeSpec, v int, vs *Visit) (any, string) {
 	case "", "results":
 		out := make([]flyt.Result, len(vals))
 		for i, x := range vals {
-			out[i] = flyt.NewResult(x)
+			if r, ok := x.(flyt.Result); ok {
+				out[i] = r // an item that is an error Result
+			} else {
+				out[i] = flyt.NewResult(x)
+			}
 		}
 		return out, desc
 	case "anys":
@@ -489,7 +510,11 @@ func (h *harness) exec(n *NodeSpec, arg any, anyStyle bool) (val any, errRes err
 		argDesc = h.reg.describe(arg)
 	}
 	if n.Kind == "batch" {
-		if nn, _, ii, ok := itemRe(strings.TrimSuffix(argDesc, "(copy)")); ok && nn == n.ID {
+		key := strings.TrimSuffix(argDesc, "(copy)")
+		if strings.HasPrefix(key, "ER(") { // an item that is an error Result: ER(<item token>E)
+			key = strings.TrimSuffix(strings.TrimSuffix(strings.TrimPrefix(key, "ER("), ")"), "E")
+		}
+		if nn, _, ii, ok := itemRe(key); ok && nn == n.ID {
 			item = ii
 		} else {
 			item = 9000 // not an item of this batch
@@ -549,6 +574,9 @@ func (h *harness) exec(n *NodeSpec, arg any, anyStyle bool) (val any, errRes err
 		e := h.reg.mkErr(o.Fail, tok+"X")
 		end.S1 = "err:" + tok + "X"
 		simrt.EmitF(end, nil, func(*simrt.Event) { h.failSeen = true })
+		if o.Both {
+			return h.reg.mkPay("str", tok+"-ignored"), nil, e // a value alongside the error
+		}
 		return nil, nil, e
 	}
 }
@@ -559,7 +587,11 @@ func (h *harness) fallback(n *NodeSpec, prep any, ferr error) (any, error) {
 	item := -1
 	if r, ok := prep.(flyt.Result); ok && n.Kind == "batch" {
 		desc = h.reg.describeSlot(r)
-		if nn, _, ii, ok := itemRe(strings.TrimSuffix(desc, "(copy)")); ok && nn == n.ID {
+		key := strings.TrimSuffix(desc, "(copy)")
+		if strings.HasPrefix(key, "ER(") {
+			key = strings.TrimSuffix(strings.TrimSuffix(strings.TrimPrefix(key, "ER("), ")"), "E")
+		}
+		if nn, _, ii, ok := itemRe(key); ok && nn == n.ID {
 			item = ii
 		} else {
 			item = 9000
@@ -599,6 +631,9 @@ func (h *harness) fallback(n *NodeSpec, prep any, ferr error) (any, error) {
 		e := h.reg.mkErr(fo.Fail, tok+"X")
 		end.S1 = "err:" + tok + "X"
 		simrt.Emit(end)
+		if fo.Both {
+			return prep, e // hands its input back together with the error
+		}
 		return nil, e
 	}
 	val := h.reg.mkPay(fo.Pay, tok)
@@ -726,6 +761,9 @@ func (h *harness) execFuncR(n *NodeSpec) func(context.Context, flyt.Result) (fly
 	return func(ctx context.Context, p flyt.Result) (flyt.Result, error) {
 		v, er, err := h.exec(n, p, false)
 		if err != nil {
+			if v != nil {
+				return flyt.NewResult(v), err
+			}
 			return flyt.Result{}, err
 		}
 		if er != nil {
